@@ -1,5 +1,9 @@
 """C01 - Simulation computes the documented cycle semantics of every primitive."""
 from elab import passcheck
+
+
+def _reraise():
+    raise
 from fam import designs
 
 CONTRACTS_MODULE = 'contracts.simulation'
@@ -11,7 +15,8 @@ def _sim_case(task):
     try:
         return simcheck.run_case(**task)
     except Exception:
-        return dict(failed=True, crashed=True, observed=traceback.format_exc()[-800:], expected='no exception')
+        from vlib.guard import guarded
+        return guarded(_reraise)
 
 
 def _fits_default(d, dv):
